@@ -112,49 +112,16 @@ fn run_inner(t: &[&str]) -> Vec<u128> {
                 Err(e) => e,
             }
         }
-        "ops" => {
+        "ops" | "winops" => {
             let bytes = unhex(t[1]);
-            let mut it = BitIter::from(bytes.into_iter());
-            let mut out: Vec<u128> = vec![];
-            for op in &t[2..] {
-                match *op {
-                    "b" => match it.read_bit() {
-                        Ok(b) => out.extend([0, b as u128, it.n_total_read() as u128]),
-                        Err(_) => out.extend([1, it.n_total_read() as u128]),
-                    },
-                    "2" => match it.read_u2() {
-                        Ok(v) => out.extend([0, u8::from(v) as u128, it.n_total_read() as u128]),
-                        Err(_) => out.extend([1, it.n_total_read() as u128]),
-                    },
-                    "8" => match it.read_u8() {
-                        Ok(v) => out.extend([0, v as u128, it.n_total_read() as u128]),
-                        Err(_) => out.extend([1, it.n_total_read() as u128]),
-                    },
-                    _ => {
-                        let parts: Vec<&str> = op.split(':').collect();
-                        assert_eq!(parts[0], "n");
-                        match read_nat_ty(&mut it, parts[1], parse_bound(parts[2])) {
-                            Ok(m) => out.extend([0, m, it.n_total_read() as u128]),
-                            Err(e) => {
-                                out.extend(e);
-                                return out;
-                            }
-                        }
-                    }
-                }
+            if t[0] == "winops" {
+                let s: usize = t[2].parse().unwrap();
+                let e: usize = t[3].parse().unwrap();
+                let it = BitIter::byte_slice_window(&bytes, s, e);
+                return run_reader_ops(it, &t[4..]);
             }
-            out.push(7);
-            match it.close() {
-                Ok(()) => out.push(0),
-                Err(simplicity::BitIterCloseError::TrailingBytes { first_byte }) => {
-                    out.extend([1, first_byte as u128])
-                }
-                Err(simplicity::BitIterCloseError::IllegalPadding {
-                    masked_padding,
-                    n_bits,
-                }) => out.extend([2, masked_padding as u128, n_bits as u128]),
-            }
-            out
+            let it = BitIter::from(bytes.into_iter());
+            return run_reader_ops(it, &t[2..]);
         }
         "wr" => {
             let mut bytes = Vec::new();
@@ -206,4 +173,47 @@ fn run_inner(t: &[&str]) -> Vec<u128> {
         }
         _ => panic!("kind"),
     }
+}
+
+fn run_reader_ops<I: Iterator<Item = u8>>(mut it: BitIter<I>, ops: &[&str]) -> Vec<u128> {
+            let mut out: Vec<u128> = vec![];
+            for op in ops {
+                match *op {
+                    "b" => match it.read_bit() {
+                        Ok(b) => out.extend([0, b as u128, it.n_total_read() as u128]),
+                        Err(_) => out.extend([1, it.n_total_read() as u128]),
+                    },
+                    "2" => match it.read_u2() {
+                        Ok(v) => out.extend([0, u8::from(v) as u128, it.n_total_read() as u128]),
+                        Err(_) => out.extend([1, it.n_total_read() as u128]),
+                    },
+                    "8" => match it.read_u8() {
+                        Ok(v) => out.extend([0, v as u128, it.n_total_read() as u128]),
+                        Err(_) => out.extend([1, it.n_total_read() as u128]),
+                    },
+                    _ => {
+                        let parts: Vec<&str> = op.split(':').collect();
+                        assert_eq!(parts[0], "n");
+                        match read_nat_ty(&mut it, parts[1], parse_bound(parts[2])) {
+                            Ok(m) => out.extend([0, m, it.n_total_read() as u128]),
+                            Err(e) => {
+                                out.extend(e);
+                                return out;
+                            }
+                        }
+                    }
+                }
+            }
+            out.push(7);
+            match it.close() {
+                Ok(()) => out.push(0),
+                Err(simplicity::BitIterCloseError::TrailingBytes { first_byte }) => {
+                    out.extend([1, first_byte as u128])
+                }
+                Err(simplicity::BitIterCloseError::IllegalPadding {
+                    masked_padding,
+                    n_bits,
+                }) => out.extend([2, masked_padding as u128, n_bits as u128]),
+            }
+            out
 }
